@@ -93,8 +93,12 @@ def _run(case):
         def forward(self):
             return [p.read() for p in self.parameters()]
 
+        def predict(self):          # a named inference procedure: resolved from the class by its name
+            return [p.read() for p in self.parameters()]
+
     torch._OBSERVER, torch._YIELD = None, None
-    tm = tmod.TorchTrainingModel(Net(), has_inference_model=True, inference_thread_only=False)
+    kw = {"inference_procedure": "predict"} if case.get("named_proc") else {}
+    tm = tmod.TorchTrainingModel(Net(), has_inference_model=True, inference_thread_only=False, **kw)
     im = tm.inference_model
     im._lock.name = "L"
     ids = {"train0": tm.model.mid, "inf0": im._raw_model.mid}
